@@ -910,9 +910,12 @@ func (r *runningStep) executeSubWorkflows(input executeInput) ([]any, map[int]st
 			}
 
 			r.logger.Debugf("Executing item %d...", i)
-			// Ignore the output ID here because it can only be "success"
 			verifhook.Gate("foreach.item.beforeExecute", "obj", r, "i", i)
-			_, outputData, err := r.workflow.Execute(r.ctx, input)
+			outputID, outputData, err := r.workflow.Execute(r.ctx, input)
+			if err == nil && outputID != "success" {
+				// The subworkflow may declare further outputs; only "success" counts as a successful item.
+				err = fmt.Errorf("subworkflow ended with output %q instead of \"success\"", outputID)
+			}
 			r.lock.Lock()
 			if err != nil {
 				itemErrors[i] = err.Error()
